@@ -386,6 +386,27 @@ TABLE += [
 ]
 
 
+# ---- C01 / C04: default batch size (`self.batch_size or <default>`) ------------------
+def or_default(target):
+    """right operand of `target = <a> or <default>`"""
+    def finder(fn):
+        for n in ast.walk(fn):
+            if isinstance(n, ast.Assign) and len(n.targets) == 1 and ast.unparse(n.targets[0]) == target \
+                    and isinstance(n.value, ast.BoolOp) and isinstance(n.value.op, ast.Or) \
+                    and len(n.value.values) == 2:
+                return n.value.values[1]
+        raise Untranslatable(f"`{target} = ... or ...` not found in {fn.name}")
+    return finder
+
+
+TABLE += [
+    ("gsDefaultBs", "n nb", "attributions/gradient_statistics/gradient_statistic.py", "GradientStatistic",
+     "explain", or_default("batch_size"), {"inputs": "n", "self.nb_samples": "nb"}, "(n * nb)"),
+    ("igDefaultBs", "n", "attributions/integrated_gradients.py", "IntegratedGradients",
+     "explain", or_default("batch_size"), {"inputs": "n"}, "n"),
+]
+
+
 def generate():
     status = {}
     lines = [
